@@ -166,3 +166,17 @@ Definition tag_str_check : bool :=
   match parse_tag (tag_str (mk_tag [97; 46; 98] [99] [100])), parse_tag (tag_str (mk_tag [97; 45; 98] [99] [100])) with
   | FOk [_; _], FCrash UnpackArity => true | _, _ => false end.
 Example tag_str_check_ok : tag_str_check = true. Proof. vm_compute. reflexivity. Qed.
+
+(* closed check for the two theorems above on instances that satisfy their hypotheses (C14_text_upper_nonvacuous states those):
+   foo-1-007<U+0967>x-py3-n-a.b.whl decodes to build (71, "x") and two tags; upper-casing the tag parts of f-1-py3-n<e-acute>-a.whl changes the text
+   but not the result *)
+Definition text_upper_check : bool :=
+  let w := {| w_name := [102]; w_ver := [49]; w_build := None; w_py := [112; 121; 51]; w_abi := [110; 233]; w_plat := [97] |} in
+  match parse_wheel (wheel_name_t [102; 111; 111] [49] (Some ([48; 48; 55; 2407], [120])) [[112; 121; 51]] [[110]] [[97]; [98]]),
+        parse_wheel (encode (upper_tags w)), parse_wheel (encode w) with
+  | FOk (n, _, Some (71, [120]), [_; _]), FOk (n1, _, None, [t1]), FOk (n2, _, None, [t2]) =>
+      str_eqb n [102; 111; 111] && str_eqb n1 n2 && str_eqb (tag_str t1) (tag_str t2) && str_eqb (t_abi t1) [110; 233]
+      && negb (str_eqb (encode (upper_tags w)) (encode w))
+  | _, _, _ => false
+  end.
+Example text_upper_ok : text_upper_check = true. Proof. vm_compute. reflexivity. Qed.
